@@ -36,7 +36,9 @@ ASSUMPTIONS = [
     "barcode clouds are well separated (clause Premise): alignments of one barcode start within half the cutoff or farther apart "
     "than the cutoff; for chains of reads each within the cutoff of the next only, the command's grouping depends on the visiting "
     "order, the statement does not fix it and such inputs are not generated",
-    "--regions are given in ascending order and are disjoint; PC is exempt from Conservation and its value is not judged",
+    "--regions are disjoint and ascending within a chromosome (borders aligned with read starts/ends, adjacent or with gaps, reads "
+    "spanning two regions); chromosomes may be requested in another order than in the BAM: the statement then does not fix the "
+    "output order and only 'every fetched alignment exactly once' is judged; PC is exempt from Conservation, its value is not judged",
     "TLC evaluates the definitions of Haplotag.tla correctly; pysam/htslib parse the BAM files",
 ]
 
@@ -185,7 +187,7 @@ def _pick_swap(rng, sc):
         sc["swap"] = list(rng.choice(sorted(cands)))
 
 
-def _rand_scenario(rng, ploidy):
+def _rand_scenario(rng, ploidy, long_reads=False):
     mode = rng.choice(["ref", "noref"])
     ns = rng.choice([1, 1, 2, 3])
     samples = [f"s{i + 1}" for i in range(ns)]
@@ -197,7 +199,7 @@ def _rand_scenario(rng, ploidy):
     nch = rng.choice([1, 2, 2])
     chroms = []
     for ci in range(nch):
-        K = rng.randint(2, 7) if ploidy == 2 else rng.randint(2, 4)
+        K = rng.randint(6, 10) if long_reads else (rng.randint(2, 7) if ploidy == 2 else rng.randint(2, 4))
         kinds = _site_kinds(rng, K, mode)
         sites = []
         nsets = [rng.randint(1, 3) for _ in samples]
@@ -247,7 +249,7 @@ def _rand_scenario(rng, ploidy):
         sites = chroms[ci]["sites"]
         K = len(sites)
 
-        def cover(maxlen=4):
+        def cover(maxlen=6 if long_reads else 4):
             if K == 0 or rng.random() < 0.12:
                 return 1, 0, [], []
             lo = rng.randint(1, K)
@@ -451,6 +453,16 @@ def _hazard_scenarios(rng):
         o = dict(base["opts"], linked=True)
         out.append(dict(base, kind="hazard:bx_tie", mode="ref", seed=rng.randrange(1 << 30), groups=grs, opts=o, chroms=[ch],
                         swap=[1, 1, 100]))
+    # (6) an alignment overlapping three regions; (7) regions of one chromosome listed in descending order
+    ch5 = {"sites": [site(100, [0, 1]) for _ in range(5)]}
+    for spec in ("span3", "unsorted"):
+        grs = [{"rg": 1, "bx": 0, "alns": [{"chrom": 0, "kind": "prim", "lo": 1, "hi": 5, "al": [0] * 5, "third": [], "rev": False, "stale": None}]},
+               {"rg": 1, "bx": 0, "alns": [{"chrom": 0, "kind": "prim", "lo": 1, "hi": 1, "al": [1], "third": [], "rev": False, "stale": None}]},
+               {"rg": 1, "bx": 0, "alns": [{"chrom": 0, "kind": "prim", "lo": 3, "hi": 3, "al": [1], "third": [], "rev": True, "stale": None}]}]
+        if spec == "unsorted":
+            grs = grs[1:]
+        out.append(dict(base, kind="hazard:regions_" + spec, seed=rng.randrange(1 << 30), groups=grs, chroms=[ch5],
+                        opts=dict(base["opts"], regions=spec)))
     # (5) one barcode in two samples: the read of the second sample shows nothing phased but lies near the first sample's cloud
     for rep in range(2):
         ch2 = {"sites": [{"kind": "snv", "len": 1, "calls": [{"ps": 100, "al": [0, 1]}, {"ps": 0, "al": [0, 1]}]} for _ in range(3)]}
@@ -479,6 +491,11 @@ def scenarios(ctx):
         scs.append(_rand_scenario(rng, 2 if i % 4 else rng.choice([3, 4])))
     for i in range(60 if q else 600):
         scs.append(_bx_scenario(rng))
+    for i in range(80 if q else 800):
+        sc = _rand_scenario(rng, 2, long_reads=True)
+        sc["kind"] = "regbnd"
+        sc["opts"]["regions"] = "bnd"
+        scs.append(sc)
     import sys
     # the hazard classes fail on the unchanged code; they are left out where a failure must mean something else
     # (mutation runs, and --selftest whose corrupted trace must be the only reason for a rejection)
@@ -669,6 +686,35 @@ def _materialise(sc, d):
     return {"chroms": chroms, "sites": sites_abs, "fasta": fasta, "vcf1": vcf1, "vcf2": vcf2, "bam": bam, "absaln": absaln}
 
 
+def _boundary_regions(rs, L, spans):
+    """2-4 ascending disjoint regions of one chromosome whose borders sit on, one before or one after alignment starts and
+    ends; consecutive regions are adjacent (next start = previous end), one base apart or separated by a gap"""
+    X = set()
+    for (p, e) in spans:
+        X |= {p - 1, p, p + 1, e - 1, e, e + 1}
+    X |= {rs.randrange(1, L) for _ in range(4)}
+    X = sorted(x for x in X if 0 < x < L)
+    n = rs.randint(2, 4)
+    while len(X) < 2 * n:
+        n -= 1
+        if n == 0:
+            return [(0, None)]
+    pts = sorted(rs.sample(X, 2 * n))
+    cuts = []
+    s = 0 if rs.random() < 0.2 else pts[0]
+    for k in range(n):
+        e = pts[2 * k + 1]
+        if e <= s:
+            e = s + 1
+        last = k == n - 1
+        cuts.append((s, None if (last and rs.random() < 0.2) else e))
+        if not last:
+            x = rs.random()
+            nxt = e if x < 0.4 else (e + 1 if x < 0.55 else max(e, pts[2 * k + 2]))
+            s = nxt
+    return cuts
+
+
 def _regions(sc, m, recs):
     """region option -> (list of region strings, abstract [chrom, s, e]); never lets a record or a site hit two regions
     unless the scenario is the region_span hazard"""
@@ -696,12 +742,42 @@ def _regions(sc, m, recs):
         elif spec == "span":
             v = ch["vars"]
             cuts = [(v[0].pos - 5, v[0].pos + 10), (v[2].pos - 5, v[2].pos + 10)]
+        elif spec == "span3":
+            v = ch["vars"]
+            cuts = [(v[0].pos - 5, v[0].pos + 10), (v[2].pos - 5, v[2].pos + 10), (v[4].pos - 5, v[4].pos + 10)]
+        elif spec == "unsorted":
+            v = ch["vars"]
+            cuts = [(v[2].pos - 5, v[2].pos + 40), (v[0].pos - 5, v[0].pos + 10)]
+        elif spec == "bnd":
+            cuts = _boundary_regions(random.Random(sc["seed"] * 7 + ci), L,
+                                     [(r["pos"], r["end"]) for r in recs if r["chrom"] == ci + 1])
         else:
             raise ValueError(spec)
         if ci > 0 and spec in ("head", "tail") and sc["seed"] % 2:
             continue                                   # only the first chromosome is requested
         out.append([ci, cuts])
-    if spec != "span":
+    if spec == "bnd":
+        # an alignment may overlap two regions; a name whose alignments are fetched more than twice in all (one alignment
+        # overlapping three regions, or a mate pair of which one mate overlaps two) is the hazard class regions_span3
+        for ci, cuts in out:
+            names = {}
+            for r in recs:
+                if r["chrom"] == ci + 1:
+                    names.setdefault(r["name"], []).append((r["pos"], r["end"]))
+            for spans in names.values():
+                while True:
+                    hits = [[k for k, (a, b) in enumerate(cuts) if s < (b if b is not None else 10 ** 9) and e > a] for s, e in spans]
+                    if sum(len(h) for h in hits) <= 2 or len(cuts) == 1:
+                        break
+                    allh = sorted({k for h in hits for k in h})
+                    k0, k1 = allh[0], allh[1]
+                    cuts[k0:k1 + 1] = [(cuts[k0][0], cuts[k1][1])]
+        rs = random.Random(sc["seed"] * 11)
+        if len(out) > 1 and rs.random() < 0.3:
+            out.reverse()                               # chromosomes requested in another order than in the BAM
+        if len(out) > 1 and rs.random() < 0.15:
+            out.pop(rs.randrange(len(out)))
+    elif spec not in ("span", "span3", "unsorted"):
         # merge regions until no alignment and no variant record overlaps two of them
         for ci, cuts in out:
             spans = [(r["pos"], r["end"]) for r in recs if r["chrom"] == ci + 1]
@@ -849,10 +925,18 @@ def _hazards(W, nstale_unplaced):
             byname.setdefault(a["name"], set()).add(a["rev"])
     if any(len(v) > 1 for v in byname.values()):
         hz.append("mates-on-opposite-strands-both-observing")
+    hits = {}
     for a in W["aln"]:
-        if a["chrom"] and sum(1 for r in W["regions"] if r["chrom"] == a["chrom"] and a["pos"] < r["e"] and a["end"] > r["s"]) > 1:
-            hz.append("alignment-overlaps-two-regions")
-            break
+        if a["chrom"]:
+            n = sum(1 for r in W["regions"] if r["chrom"] == a["chrom"] and a["pos"] < r["e"] and a["end"] > r["s"])
+            hits.setdefault((a["name"], a["chrom"]), []).append(n)
+    if any(max(v) == 2 for v in hits.values()):
+        hz.append("alignment-overlaps-two-regions")
+    if any(sum(v) > 2 for v in hits.values()):
+        hz.append("name-fetched-more-than-twice-by-the-regions")
+    rg = W["regions"]
+    if any(rg[k]["chrom"] == rg[m]["chrom"] and rg[k]["s"] > rg[m]["s"] for k in range(len(rg)) for m in range(k + 1, len(rg))):
+        hz.append("regions-of-a-chromosome-not-ascending")
     if nstale_unplaced:
         hz.append("stale-tags-on-unplaced-unmapped-read")
     if W["linked"]:
